@@ -35,7 +35,7 @@ from io import BytesIO
 
 __all__ = ['Envelope']
 
-_HEADER_BOUNDARY = re.compile(br'\r?\n\s*?\n')
+_HEADER_BOUNDARY = re.compile(br'\r?\n\r?\n')
 _LINE_BREAK = re.compile(br'\r?\n')
 
 # Never let the email package re-fold (and thereby re-parse and rewrite)
